@@ -78,7 +78,7 @@ CHECKS = {
         text='PropagateRel.tla writes the input signal and the polarization as integer combinations of basis elements, moves the '
              'grid by whole samples, and keeps separately the coefficient matrix M (and vector R) that predicts the output as a '
              'combination of the base outputs propagate(s_i, e_j); TLC checks Consistent (M = a x c, R = a) exhaustively to depth 4 '
-             '(7 thorough) for 4 tracers x 5 geometries (one exactly vertical) x attenuation interpolation off / 0.1; depth-7 '
+             '(6 thorough) for 4 tracers x 6 geometries (one exactly vertical) x attenuation interpolation off / 0.1; depth-7 '
              'simulations are executed on the real paths: s, p and unpolarized outputs must equal the predicted combinations '
              '(1e-9), lie on the input grid + time of flight, carry no more energy than |c|^2 times the input; polarization '
              'vectors unit, orthogonal, transverse; attenuation in (0,1], even in f, not growing with |f|; |Fresnel| <= 1.',
